@@ -7,6 +7,7 @@ import GfsModel.ListSeqs
 import GfsModel.Compress
 
 namespace Gfs.Proofs
+namespace Order
 open Gfs
 
 /-! ### sortInts -/
@@ -105,4 +106,5 @@ theorem regroup_uniform (w : Nat) : ∀ (l : List FrameInfo) (cur : List Int) (a
     rw [regroup_uniform w rest (cur ++ [f.num]) acc (fun g hg => h g (List.mem_cons_of_mem _ hg))]
     simp
 
+end Order
 end Gfs.Proofs
